@@ -56,18 +56,9 @@ def run(chk):
         o = S.local_outcomes(ms)
         v = o[0].value if len(o) == 1 else None
         ok = v is not None and (is_call(v, "crypto::sha256") or is_call(v, "sha256"))
-        segs = []
-        if ok:
-            inner = v[2][0]
-            while isinstance(inner, tuple) and inner and inner[0] == "call" and (names.is_(inner[1], "Iterator::collect") or names.is_(inner[1], "Iterator::cloned") or names.is_(inner[1], "Iterator::copied")):
-                inner = inner[2][0]
-            segs = chain_segments(inner)
-        def seg_const(s):
-            while isinstance(s, tuple) and s and s[0] == "call" and len(s[2]) >= 1 and (s[1].endswith("::iter") or names.is_(s[1], "IntoIterator::into_iter") or names.is_(s[1], "once")):
-                s = s[2][0]
-            return s
-        sc = [seg_const(s) for s in segs]
-        good = len(sc) == 3 and sc[0] == ("const", b"WebAuthn PRF") and sc[1] == ("const", 0) and sc[2] == ("param", 1) and is_call(segs[1], "once")
+        segs = flow.byte_segments(N.norm(v[2][0])) if ok else []
+        sc = segs
+        good = len(sc) == 3 and sc[0] == ("const", b"WebAuthn PRF") and sc[1] == ("array", (("const", 0),)) and sc[2] == ("param", 1)
         chk.ob("R1 salt", "R1|make_salt|layout", bool(ok and good), where(ms), "make_salt = %s" % (flow.term_str(v) if v else "?"))
     cv = fn(p, "extensions::prf::convert_eval_to_ctap")
     if chk.require("R1 salt", "R1|convert_eval_to_ctap", cv, "passkey_client::extensions::prf", "convert_eval_to_ctap not found"):
@@ -97,33 +88,39 @@ def run(chk):
         if not chk.require("R1 salt", "R1|%s|precedence" % nm, b, suffix, "%s not found" % suffix):
             continue
         chk.touched(b)
-        T = flow.Terms(p, b)
-        calls = sorted(names.calls_to(b, callee), key=lambda x: x[1]["line"] * 1000 + x[0])
-        ok = len(calls) == 2
-        wit = "%d calls" % len(calls)
-        if ok:
-            def which(t):
-                for x in sub(t):
-                    if isinstance(x, tuple) and len(x) == 3 and x[0] == "closure":
-                        r = closure_ret(p, x)
-                        if r is not None:
-                            for y in sub(r):
-                                if isinstance(y, tuple) and len(y) == 3 and y[0] == "field" and y[2] in ("prf", "prf_already_hashed"):
-                                    return y[2]
-                return None
-            info = []
-            for bb, t in calls:
-                args = [flow.simplify_term(T.operand(a, bb, "t")) for a in t["args"]]
-                src = None
-                for a in args[:-2]:
-                    src = src or which(a)
-                info.append((src, args[-1]))
-            ok = info[0] == ("prf", ("const", 1)) and info[1] == ("prf_already_hashed", ("const", 0))
-            # the second is only tried when the first produced nothing
-            conds = flow.conditions(p, b, calls[1][0], T)
-            ok2 = any(t[0] == "call" and names.is_(t[1], "Option::is_none") and has(t, lambda x: is_call(x, callee)) and flow.lab_true(l) for sb, l, t in conds)
-            ok = ok and ok2
-            wit = "calls: %s ; second only when the first yields None: %s" % ([(s, flow.term_str(h)) for s, h in info], ok2)
+        # the function's own decision table in normal form (calls to the converter kept as calls)
+        rws = normal.rows(S, b, N, expand=False)
+        is_conv = lambda x: isinstance(x, tuple) and len(x) == 4 and x[0] == "call" and names.is_(x[1], callee)
+        mentions = lambda t, fld: has(t, lambda y: isinstance(y, tuple) and len(y) == 3 and y[0] == "field" and y[2] == fld)
+
+        def kind(cl):
+            src = [a for a in cl[2][:-1] if mentions(a, "prf") or mentions(a, "prf_already_hashed")]
+            flag = cl[2][-1]
+            if flag == ("const", 1) and not any(mentions(a, "prf_already_hashed") for a in cl[2]):
+                return "prf"
+            if flag == ("const", 0) and not any(mentions(a, "prf") for a in cl[2]):
+                return "hashed"
+            return "mixed"
+        problems = []
+        seen = set()
+        for o in rws:
+            in_value = [x for x in sub(o.value) if is_conv(x)]
+            kinds = {kind(x) for x in in_value} | {kind(x) for t, l, f, w in o.conds for x in sub(t) if is_conv(x)}
+            seen |= kinds
+            if "mixed" in kinds:
+                problems.append("a conversion mixes the hashing flag and the input member: %s" % flow.term_str(o.value)[:120])
+            firsts = lambda x: is_conv(x) and kind(x) == "prf"
+            if any(kind(x) == "hashed" for x in in_value):
+                # prfAlreadyHashed is consulted only when `prf` converted fine and produced nothing
+                ok_first = any(flow.asserts_ok(t, l, firsts) for t, l, f, w in o.conds)
+                none_first = any(flow.asserts_fail(t, l, lambda y: flow.is_payload_of(y, firsts)) for t, l, f, w in o.conds)
+                if not (ok_first and none_first):
+                    problems.append("prfAlreadyHashed is used without `prf` having produced nothing: %s" % o.cond_strs())
+            elif o.variant[:1] == ("Ok",):
+                if not (any(flow.asserts_ok(t, l, firsts) for t, l, f, w in o.conds) and has(o.value, lambda y: flow.is_payload_of(y, firsts))):
+                    problems.append("an Ok row returns something other than the `prf` conversion result: %s" % flow.term_str(o.value)[:120])
+        ok = not problems and {"prf", "hashed"} <= seen
+        wit = problems[0] if problems else "%d rows: `prf` is converted with hashing and tried first; `prfAlreadyHashed` (no hashing) only when that gave Ok(None)" % len(rws)
         chk.ob("R1 salt", "R1|%s|prf-first-hashed" % nm, ok, where(b), wit)
 
     # ---------------- R2
